@@ -56,10 +56,18 @@ def run(crate, harnesses, jobs=16, harness_timeout=900, total_timeout=3600, pref
         cmd += extra
     t0 = time.time()
     with open(log, 'w') as lf:
+        # own process group, so that a timeout takes the CBMC grandchildren down with it
+        p = subprocess.Popen(cmd, cwd=crate, env=env_offline(), stdout=lf, stderr=subprocess.STDOUT,
+                             preexec_fn=_limit_memory, start_new_session=True)
         try:
-            p = subprocess.run(cmd, cwd=crate, env=env_offline(), stdout=lf, stderr=subprocess.STDOUT,
-                               timeout=total_timeout, preexec_fn=_limit_memory)
+            p.wait(timeout=total_timeout)
         except subprocess.TimeoutExpired:
+            import signal
+            try:
+                os.killpg(p.pid, signal.SIGKILL)
+            except OSError:
+                pass
+            p.wait()
             raise ToolFailure('cargo kani exceeded %ds on %s' % (total_timeout, crate))
     wall = time.time() - t0
     if not os.path.exists(out_json):
